@@ -11,7 +11,8 @@ EXPLANATION = ("Frozen table of the best-effort steps named by the property (21 
                "path — no return/exit is reachable from the failing branch before control merges with the success continuation — and (c) for stream "
                "sites feeds the all-zero directory entry (C01/stream-unique). (subwriter-map) each sub-list is attached under its own variant at "
                "the call that fills it; (stream-always) every success path of generate_dump serialises the same list all pushes went to and flushes "
-               "its entry, after resume_threads; (no-dontcare) the error-discarding strategy is used only in Drop. The thorough tier repeats the rules "
+               "its entry, after resume_threads; (no-dontcare) the error-discarding strategy is used only in Drop; (error-turned-success) an Err arm or "
+               "or_else closure on the dump path that answers a failed callee with Ok(..) pushes a soft error or is one of 5 reviewed recoveries. The thorough tier repeats the rules "
                "on the cfg(test) build where the five failspot injection points are live.")
 TRUSTED = ["serde_json emits well-formed JSON", "error-graph ErrorList/subwriter semantics"]
 ASSUMPTIONS = ["naturally induced failures are runtime events; the rule shows every failing branch is soft and reported"]
@@ -565,6 +566,102 @@ def rule_discarded_results(ctx, R="C11/discarded-results"):
     ctx.ok(R, "table", None, "%d of %d reviewed entries matched%s" % (len(REVIEWED_DISCARDS) - len(stale), len(REVIEWED_DISCARDS), (" (unused: %s)" % stale) if stale else ""), nontrivial=False)
 
 
+
+# every place on the dump path where a FAILED attempt is answered with a success value — an `Err(..)` arm (or an `or_else` closure) that
+# produces `Ok(..)`.  key: (function, callee whose Result is matched) — the spelling (match arm / or_else closure) is not part of it
+REVIEWED_RECOVERIES = {
+    ("<linux::module_reader::BuildId as linux::module_reader::ReadFromModule>::read_from_module", "build_id_from_program_headers"):
+        "the next source of the build id (section note, then the text-page hash) is tried; all three failing is returned as the combined error",
+    ("<linux::module_reader::BuildId as linux::module_reader::ReadFromModule>::read_from_module", "build_id_from_section"):
+        "the text-page hash is tried next; its failure is returned together with the two earlier errors",
+    ("<linux::module_reader::SoName as linux::module_reader::ReadFromModule>::read_from_module", "soname_from_program_headers"):
+        "the section-based lookup is tried next; both failing is returned as the combined error",
+    ("linux::mem_reader::MemReader::read", "vmem"):
+        "the next read strategy (/proc/<pid>/mem, then ptrace) is tried; the last one's error is returned (C17/probing-exhaustive)",
+    ("linux::ptrace_dumper::ptrace_detach", "detach"):
+        "ESRCH from PTRACE_DETACH means the thread is gone: there is nothing left to resume (C03/attach-detach)",
+}
+
+
+def rule_error_turned_success(ctx, R="C11/error-turned-success"):
+    """`every failure is reported`: a function on the dump path that looks at a callee's Result and answers the Err case with an Ok value
+    of its own makes that failure invisible to every caller — the step looks as if it had succeeded (with an empty or default result) and
+    no soft error is recorded.  The places where a failed attempt is legitimately followed by another attempt are listed and reviewed;
+    any other `Err(..) => Ok(..)` arm or `or_else(|e| Ok(..))` closure on the dump path is reported."""
+    prog = ctx.prog
+    reach = prog.reachable(["linux::minidump_writer::MinidumpWriter::dump"])
+
+    def is_res(ty):
+        return ty.startswith("std::result::Result<") or ty.startswith("std::io::Result")
+
+    def assigns_ok(b, blocks):
+        for x in blocks:
+            for st in b.blocks[x]["stmts"]:
+                if st["k"] == "assign" and st["p"]["l"] == 0 and not st["p"]["proj"] and st["r"]["k"] == "agg" and st["r"].get("vname") == "Ok" \
+                        and norm(st["r"].get("adt") or "") == "std::result::Result":
+                    return x
+        return None
+    seen = set()
+    n_sw = 0
+    for f in sorted(reach):
+        if "_serde" in f:
+            continue
+        for b in prog.by_short.get(f, ()):
+            fk = f.split("::{closure")[0]
+            if is_res(b.locals[0]["ty"]):
+                for bi, blk in enumerate(b.blocks):
+                    t = blk["term"]
+                    if t["k"] != "switch" or "p" not in t["o"]:
+                        continue
+                    src = None
+                    for (x, si, kind, st) in b.defs.get(t["o"]["p"]["l"], ()):
+                        if kind == "assign" and st["r"]["k"] == "discr":
+                            src = st["r"]["p"]
+                    if src is None or src["proj"] or not is_res(b.locals[src["l"]]["ty"]):
+                        continue
+                    n_sw += 1
+                    errt = [tt for v, tt in t["targets"] if v == 1]
+                    if not errt and any(v == 0 for v, tt in t["targets"]):
+                        errt = [t["otherwise"]]
+                    for e in errt:
+                        region = [y for y in range(b.n) if b.dominates(e, y)]
+                        x = assigns_ok(b, region)
+                        if x is None:
+                            continue
+                        if any(b.term(y)["k"] == "call" and is_push(CalleeView(b.term(y)["callee"])) for y in region):
+                            continue      # the failure is recorded as a soft error before the step goes on
+                        cal = sorted({(CalleeView(st2["callee"]).short or "?").split("::")[-1] for (x2, si2, k2, st2) in b.defs.get(src["l"], ()) if k2 == "call"}) or ["?"]
+                        key = (fk, cal[0])
+                        why = REVIEWED_RECOVERIES.get(key)
+                        if key in seen and why:
+                            continue
+                        seen.add(key)
+                        ctx.check(why is not None, R, key, b.where(x), "reviewed: %s" % why,
+                                  "%s answers a failed %s() with Ok(..): the failure is reported nowhere and the callers take the step for a success" % (fk, cal[0]))
+            for bi, t in b.calls():
+                cv = CalleeView(t["callee"])
+                if not ((cv.short or "").startswith("std::result::Result") and cv.short.split("::")[-1] == "or_else"):
+                    continue
+                n_sw += 1
+                o = Origin(b)
+                a = o.call_args(bi)
+                clo = [q for q in walk(a[1]) if q[0] == "closure"] if len(a) > 1 else []
+                recv = [q for q in walk(a[0]) if q[0] == "call"] if a else []
+                for q in clo:
+                    for cb in prog.by_short.get(q[1], ()):
+                        x = assigns_ok(cb, range(cb.n))
+                        if x is None:
+                            continue
+                        key = (fk, recv[0][1].split("::")[-1] if recv else "?")
+                        why = REVIEWED_RECOVERIES.get(key)
+                        seen.add(key)
+                        ctx.check(why is not None, R, key, cb.where(x), "reviewed: %s" % why,
+                                  "%s recovers from a failed %s() with or_else(|e| .. Ok(..)): the failure is reported nowhere" % (fk, key[1]))
+    ctx.floor(R, "matches on a Result / or_else calls on the dump path", n_sw, 40)
+    stale = [k for k in REVIEWED_RECOVERIES if k not in seen]
+    ctx.check(not stale, R, "table", None, "all %d reviewed recoveries matched" % len(REVIEWED_RECOVERIES), "reviewed recoveries no longer found (anchor lost): %s" % stale, nontrivial=False)
+
+
 INIT_STEPS = ("PtraceDumper::stop_process", "AuxvDumpInfo::try_filling_missing_info", "PtraceDumper::enumerate_threads", "PtraceDumper::enumerate_mappings")
 
 
@@ -671,6 +768,7 @@ PROCSTATE_STOPPED = 4
 
 
 def run(ctx):
+    rule_error_turned_success(ctx)
     rule_stop_state_source(ctx)
     rule_absent_auxv_tolerated(ctx)
     rule_every_step_attempted(ctx)
